@@ -29,25 +29,25 @@ Example C02_double_free_is_ub :
   /\ match free_buf 2 3 s0 [] with UB _ => True | _ => False end.
 Proof. vm_compute. split; exact I. Qed.
 
-(* THE GLOBAL INVARIANT (HeapWF.v): typing of every handle against its storage, reference count = number of holders, one holder for a storage
-   without control block, none for a dead one, disjoint BytesMut windows, fresh identifiers.  PARTIAL: proved for the operations `covered`
-   (HeapWFMain.v): 40 of the 46 operations - every constructor, the whole bytes.rs family (clone, slice, split, truncate, advance, is_unique,
-   try_into_mut, Into<BytesMut>, Into<Vec>, drop), Vec conversions, and of bytes_mut.rs split_off / split_to / split / truncate / clear / write /
-   advance / freeze / Into<Vec> / clone / drop.  NOT YET: reserve, try_reclaim, extend (slice and iterator), resize, unsplit (these rest on the
-   post-condition theorems of C04 and on the correspondence engine).
-   For every history of covered, well-typed operations from the empty state, with every oracle: every state is WF and no step is UB. *)
-Theorem C02_invariant_preserved_partial : forall orc o s, covered o = true -> WF s -> op_ok s o ->
+(* THE GLOBAL INVARIANT (HeapWF.v): typing of every handle against its storage (class, liveness, control-block shape, window inside the
+   allocation), reference count = number of holders, exactly one holder for a live buffer without control block, none for a dead one,
+   pairwise disjoint non-empty windows of shared BytesMut handles, fresh identifiers.  Proved for ALL 46 operations of M2 (HeapWFOps.v,
+   HeapWFMain.v): for every history of well-typed operations (the named handles exist and have the right type) from the empty state, with
+   EVERY oracle (capacities std delivers), in both address parities, including panicking operations: every state satisfies the invariant and
+   NO step reaches UB - i.e. no read / write outside a live allocation, no free of a freed block or with a wrong size, no reference-count
+   underflow, no owner dropped twice, no control block used after it was freed. *)
+Theorem C02_invariant_preserved : forall orc o s, WF s -> op_ok s o ->
   match run_op orc o s with OK _ s' _ => WF s' | PANIC s' _ => WF s' | UB _ => False end.
 Proof. exact wf_preserved. Qed.
-Theorem C02_no_ub_reachable_partial : forall orcs n s o why, reach orcs n s -> covered o = true -> op_ok s o -> run_op (orcs n) o s <> UB why.
+Theorem C02_no_ub_reachable : forall orcs n s o why, reach orcs n s -> op_ok s o -> run_op (orcs n) o s <> UB why.
 Proof. exact reach_no_ub. Qed.
-Example C02_invariant_nonvacuous : WF (hst0 false) /\ covered (OBSplitOff 1 3) = true.
-Proof. split; [apply wf0|reflexivity]. Qed.
+Example C02_invariant_nonvacuous : WF (hst0 false) /\ WF (hst0 true).
+Proof. split; apply wf0. Qed.
 
 Print Assumptions C02_free_is_layout_exact_and_once_partial.
 Print Assumptions C02_read_inside_live_block_partial.
 Print Assumptions C02_write_inside_live_heap_block_partial.
 Print Assumptions C02_double_free_is_ub.
-Print Assumptions C02_invariant_preserved_partial.
-Print Assumptions C02_no_ub_reachable_partial.
+Print Assumptions C02_invariant_preserved.
+Print Assumptions C02_no_ub_reachable.
 Print Assumptions C02_invariant_nonvacuous.
